@@ -723,7 +723,9 @@ func genCases(seed uint64, tier string) []Case {
 			}
 		}
 	}
-	r := hx.NewRng(seed)
+	// hx.NewRng's streams for consecutive seeds are one-step shifts of each other;
+	// spread the seeds first.
+	r := hx.NewRng(seed*0x2545F4914F6CDD1D + 0x1b873593)
 	for i := 0; i < N; i++ {
 		for j := 0; j < N; j++ {
 			for k := 0; k < N; k++ {
